@@ -425,7 +425,7 @@ Definition c17_op (v : val) : StoreModel.sop :=
   if c =? 0 then OAddStream a b else if c =? 1 then ODelStream a else if c =? 2 then OUpload a b d e
   else if c =? 3 then ODelFile a else if c =? 4 then OAddKey a b else if c =? 5 then ODelKey a
   else if c =? 6 then OLink a b else if c =? 7 then OAddMps a b else if c =? 8 then ODelMps a
-  else if c =? 9 then OAddPeriod a b d e else if c =? 10 then ODelPeriod a else if c =? 12 then ORename a b else OAddAset a b.
+  else if c =? 9 then OAddPeriod a b d e else if c =? 10 then ODelPeriod a else if c =? 12 then ORename a b else if c =? 13 then ODelAset a else OAddAset a b.
 Definition c17_pairs (l : list (Z * Z)) : val := VL (map (fun x => VL [VI (fst x); VI (snd x)]) l).
 Definition c17_state (s : store) : val :=
   VL [c17_pairs (streams s);
